@@ -128,3 +128,301 @@ fn c05_single_component_perturbations() {
         }
     }
 }
+
+// =====================================================================================
+// C01 / C03: an independent reference implementation of the rules (mailbox board, written from the FIDE rules, sharing
+// no code with the engine) and a differential walk: legal move sets, check status and every bookkeeping component are
+// compared after every move of seeded random playouts, plus a full-width walk to depth 2 from every start position.
+// =====================================================================================
+mod refrules {
+    #[derive(Clone, Copy, PartialEq, Eq, Debug)]
+    pub enum P { Pawn, Knight, Bishop, Rook, Queen, King }
+    #[derive(Clone, PartialEq, Eq, Debug)]
+    pub struct Pos {
+        pub sq: [Option<(bool, P)>; 64],   // (is_white, piece); index = rank * 8 + file
+        pub white: bool,
+        pub rights: [bool; 4],             // K Q k q
+        pub ep: Option<u8>,                // file of the pawn that just made a double step
+        pub half: u32,
+        pub full: u32,
+    }
+    #[derive(Clone, Copy, PartialEq, Eq, Debug)]
+    pub struct Mv { pub from: usize, pub to: usize, pub promo: Option<P> }
+    impl Mv {
+        pub fn text(&self) -> String {
+            let n = |i: usize| format!("{}{}", (b'a' + (i % 8) as u8) as char, i / 8 + 1);
+            let p = match self.promo { Some(P::Queen) => "q", Some(P::Rook) => "r", Some(P::Bishop) => "b", Some(P::Knight) => "n", _ => "" };
+            format!("{}{}{}", n(self.from), n(self.to), p)
+        }
+    }
+    pub fn from_fen(fen: &str) -> Pos {
+        let f: Vec<&str> = fen.split_whitespace().collect();
+        let mut sq = [None; 64];
+        let (mut r, mut c) = (7i32, 0i32);
+        for ch in f[0].chars() {
+            match ch {
+                '/' => { r -= 1; c = 0; }
+                '1'..='8' => c += ch as i32 - '0' as i32,
+                _ => {
+                    let p = match ch.to_ascii_lowercase() { 'p' => P::Pawn, 'n' => P::Knight, 'b' => P::Bishop, 'r' => P::Rook, 'q' => P::Queen, _ => P::King };
+                    sq[(r * 8 + c) as usize] = Some((ch.is_ascii_uppercase(), p));
+                    c += 1;
+                }
+            }
+        }
+        let cr = f.get(2).copied().unwrap_or("-");
+        Pos { sq, white: f.get(1).copied().unwrap_or("w") == "w",
+              rights: [cr.contains('K'), cr.contains('Q'), cr.contains('k'), cr.contains('q')],
+              ep: f.get(3).and_then(|s| s.chars().next()).filter(|c| *c != '-').map(|c| c as u8 - b'a'),
+              half: f.get(4).and_then(|s| s.parse().ok()).unwrap_or(0), full: f.get(5).and_then(|s| s.parse().ok()).unwrap_or(1) }
+    }
+    fn on(r: i32, c: i32) -> bool { (0..8).contains(&r) && (0..8).contains(&c) }
+    /// is square s attacked by a piece of colour `by_white`?
+    pub fn attacked(p: &Pos, s: usize, by_white: bool) -> bool {
+        let (r, c) = ((s / 8) as i32, (s % 8) as i32);
+        let at = |rr: i32, cc: i32| if on(rr, cc) { p.sq[(rr * 8 + cc) as usize] } else { None };
+        let pr = if by_white { r - 1 } else { r + 1 };
+        for dc in [-1, 1] { if at(pr, c + dc) == Some((by_white, P::Pawn)) { return true; } }
+        for (dr, dc) in [(1, 2), (2, 1), (-1, 2), (-2, 1), (1, -2), (2, -1), (-1, -2), (-2, -1)] { if at(r + dr, c + dc) == Some((by_white, P::Knight)) { return true; } }
+        for dr in -1..=1 { for dc in -1..=1 { if (dr, dc) != (0, 0) && at(r + dr, c + dc) == Some((by_white, P::King)) { return true; } } }
+        for (dr, dc) in [(1, 0), (-1, 0), (0, 1), (0, -1), (1, 1), (1, -1), (-1, 1), (-1, -1)] {
+            let diag = dr != 0 && dc != 0;
+            let (mut rr, mut cc) = (r + dr, c + dc);
+            while on(rr, cc) {
+                if let Some((w, k)) = at(rr, cc) {
+                    if w == by_white && (k == P::Queen || (diag && k == P::Bishop) || (!diag && k == P::Rook)) { return true; }
+                    break;
+                }
+                rr += dr; cc += dc;
+            }
+        }
+        false
+    }
+    pub fn in_check(p: &Pos, white: bool) -> bool {
+        match (0..64).find(|&i| p.sq[i] == Some((white, P::King))) { Some(k) => attacked(p, k, !white), None => false }
+    }
+    fn pseudo(p: &Pos) -> Vec<Mv> {
+        let mut out = vec![];
+        let w = p.white;
+        for from in 0..64 {
+            let Some((c, k)) = p.sq[from] else { continue };
+            if c != w { continue; }
+            let (r, f) = ((from / 8) as i32, (from % 8) as i32);
+            let mut step = |out: &mut Vec<Mv>, dr: i32, dc: i32, slide: bool| {
+                let (mut rr, mut cc) = (r + dr, f + dc);
+                while on(rr, cc) {
+                    let t = (rr * 8 + cc) as usize;
+                    match p.sq[t] { None => out.push(Mv { from, to: t, promo: None }),
+                                    Some((oc, _)) => { if oc != w { out.push(Mv { from, to: t, promo: None }); } break; } }
+                    if !slide { break; }
+                    rr += dr; cc += dc;
+                }
+            };
+            match k {
+                P::Knight => for (dr, dc) in [(1, 2), (2, 1), (-1, 2), (-2, 1), (1, -2), (2, -1), (-1, -2), (-2, -1)] { step(&mut out, dr, dc, false); },
+                P::King => {
+                    for dr in -1..=1 { for dc in -1..=1 { if (dr, dc) != (0, 0) { step(&mut out, dr, dc, false); } } }
+                    let home = if w { 4 } else { 60 };
+                    if from == home && !attacked(p, home, !w) {
+                        let (ks, qs) = if w { (p.rights[0], p.rights[1]) } else { (p.rights[2], p.rights[3]) };
+                        if ks && p.sq[home + 1].is_none() && p.sq[home + 2].is_none() && p.sq[home + 3] == Some((w, P::Rook))
+                            && !attacked(p, home + 1, !w) && !attacked(p, home + 2, !w) { out.push(Mv { from, to: home + 2, promo: None }); }
+                        if qs && p.sq[home - 1].is_none() && p.sq[home - 2].is_none() && p.sq[home - 3].is_none() && p.sq[home - 4] == Some((w, P::Rook))
+                            && !attacked(p, home - 1, !w) && !attacked(p, home - 2, !w) { out.push(Mv { from, to: home - 2, promo: None }); }
+                    }
+                }
+                P::Bishop => for (dr, dc) in [(1, 1), (1, -1), (-1, 1), (-1, -1)] { step(&mut out, dr, dc, true); },
+                P::Rook => for (dr, dc) in [(1, 0), (-1, 0), (0, 1), (0, -1)] { step(&mut out, dr, dc, true); },
+                P::Queen => for (dr, dc) in [(1, 0), (-1, 0), (0, 1), (0, -1), (1, 1), (1, -1), (-1, 1), (-1, -1)] { step(&mut out, dr, dc, true); },
+                P::Pawn => {
+                    let dir = if w { 1 } else { -1 };
+                    let (start, last) = if w { (1, 7) } else { (6, 0) };
+                    let mut add = |out: &mut Vec<Mv>, to: usize| {
+                        if (to / 8) as i32 == last { for pr in [P::Queen, P::Rook, P::Bishop, P::Knight] { out.push(Mv { from, to, promo: Some(pr) }); } }
+                        else { out.push(Mv { from, to, promo: None }); }
+                    };
+                    if on(r + dir, f) && p.sq[((r + dir) * 8 + f) as usize].is_none() {
+                        add(&mut out, ((r + dir) * 8 + f) as usize);
+                        if r == start && p.sq[((r + 2 * dir) * 8 + f) as usize].is_none() { out.push(Mv { from, to: ((r + 2 * dir) * 8 + f) as usize, promo: None }); }
+                    }
+                    for dc in [-1, 1] {
+                        if !on(r + dir, f + dc) { continue; }
+                        let t = ((r + dir) * 8 + f + dc) as usize;
+                        if let Some((oc, _)) = p.sq[t] { if oc != w { add(&mut out, t); } }
+                        else if p.ep == Some((f + dc) as u8) && r == (if w { 4 } else { 3 }) && p.sq[(r * 8 + f + dc) as usize] == Some((!w, P::Pawn)) {
+                            out.push(Mv { from, to: t, promo: None });
+                        }
+                    }
+                }
+            }
+        }
+        out
+    }
+    /// the successor position under the rules
+    pub fn play(p: &Pos, m: Mv) -> Pos {
+        let mut n = p.clone();
+        let (w, k) = p.sq[m.from].unwrap();
+        let capture = p.sq[m.to].is_some();
+        let is_ep = k == P::Pawn && (m.from % 8 != m.to % 8) && !capture;
+        n.sq[m.from] = None;
+        n.sq[m.to] = Some((w, m.promo.unwrap_or(k)));
+        if is_ep { n.sq[(m.from / 8) * 8 + m.to % 8] = None; }
+        if k == P::King && (m.to as i32 - m.from as i32).abs() == 2 {
+            let (rf, rt) = if m.to > m.from { (m.from + 3, m.from + 1) } else { (m.from - 4, m.from - 1) };
+            n.sq[rt] = n.sq[rf]; n.sq[rf] = None;
+        }
+        // a right is lost when the king or that rook moves, or that rook is captured on its corner; never regained
+        let lose = |n: &mut Pos, i: usize| n.rights[i] = false;
+        if k == P::King { if w { lose(&mut n, 0); lose(&mut n, 1); } else { lose(&mut n, 2); lose(&mut n, 3); } }
+        for s in [m.from, m.to] { match s { 7 => lose(&mut n, 0), 0 => lose(&mut n, 1), 63 => lose(&mut n, 2), 56 => lose(&mut n, 3), _ => {} } }
+        n.ep = if k == P::Pawn && (m.to as i32 - m.from as i32).abs() == 16 { Some((m.from % 8) as u8) } else { None };
+        n.half = if k == P::Pawn || capture || is_ep { 0 } else { p.half + 1 };
+        if !w { n.full += 1; }
+        n.white = !w;
+        n
+    }
+    pub fn to_fen(p: &Pos) -> String {
+        let mut out = String::new();
+        for r in (0..8).rev() {
+            let mut gap = 0;
+            for c in 0..8 {
+                match p.sq[r * 8 + c] {
+                    None => gap += 1,
+                    Some((w, k)) => {
+                        if gap > 0 { out.push_str(&gap.to_string()); gap = 0; }
+                        let ch = match k { P::Pawn => 'p', P::Knight => 'n', P::Bishop => 'b', P::Rook => 'r', P::Queen => 'q', P::King => 'k' };
+                        out.push(if w { ch.to_ascii_uppercase() } else { ch });
+                    }
+                }
+            }
+            if gap > 0 { out.push_str(&gap.to_string()); }
+            if r > 0 { out.push('/'); }
+        }
+        let mut cr = String::new();
+        for (i, ch) in ['K', 'Q', 'k', 'q'].iter().enumerate() { if p.rights[i] { cr.push(*ch); } }
+        if cr.is_empty() { cr.push('-'); }
+        let ep = match p.ep { Some(f) => format!("{}{}", (b'a' + f) as char, if p.white { 6 } else { 3 }), None => "-".to_string() };
+        format!("{} {} {} {} {} {}", out, if p.white { 'w' } else { 'b' }, cr, ep, p.half, p.full)
+    }
+    pub fn legal(p: &Pos) -> Vec<Mv> { pseudo(p).into_iter().filter(|m| !in_check(&play(p, *m), p.white)).collect() }
+}
+
+fn ref_kind(k: crate::board::piece::Kind) -> (bool, refrules::P) {
+    use crate::board::piece::Kind as K;
+    use refrules::P;
+    match k { K::Pawn(c) => (c == Color::White, P::Pawn), K::Knight(c) => (c == Color::White, P::Knight), K::Bishop(c) => (c == Color::White, P::Bishop),
+              K::Rook(c) => (c == Color::White, P::Rook), K::Queen(c) => (c == Color::White, P::Queen), K::King(c) => (c == Color::White, P::King) }
+}
+/// compare every bookkeeping component of the engine's board with the reference position
+fn c03_compare(b: &Board, r: &refrules::Pos, ctx: &str) {
+    for s in 0..64u8 {
+        let e = b.get_piece(Square::from(s)).map(ref_kind);
+        assert!(e == r.sq[s as usize], "C03: piece placement differs on {} (engine {:?}, rules {:?}): {ctx}", Square::from(s), e, r.sq[s as usize]);
+    }
+    assert!((b.current_turn == Color::White) == r.white, "C03: side to move differs: {ctx}");
+    let cr = b.history.last().unwrap().castling_rights;
+    let e = [cr.white_kingside == CastlingStatus::Available, cr.white_queenside == CastlingStatus::Available,
+             cr.black_kingside == CastlingStatus::Available, cr.black_queenside == CastlingStatus::Available];
+    assert!(e == r.rights, "C03: castling rights differ (engine KQkq {:?}, rules {:?}): {ctx}", e, r.rights);
+    assert!(b.en_passant_file == r.ep, "C03: en-passant file differs (engine {:?}, rules {:?}): {ctx}", b.en_passant_file, r.ep);
+    assert!(u32::from(b.get_halfmove_clock()) == r.half, "C03: half-move clock differs (engine {}, rules {}): {ctx}", b.get_halfmove_clock(), r.half);
+    assert!(b.fullmove_counter as u64 == r.full as u64, "C03: full-move number differs (engine {}, rules {}): {ctx}", b.fullmove_counter, r.full);
+}
+fn c01_compare(b: &mut Board, r: &refrules::Pos, ctx: &str) -> Vec<Ply> {
+    let moves = b.get_legal_moves();
+    let mut e: Vec<String> = moves.iter().map(|m| m.to_notation()).collect();
+    let mut x: Vec<String> = refrules::legal(r).iter().map(|m| m.text()).collect();
+    let n = e.len();
+    e.sort(); x.sort();
+    let mut d = e.clone(); d.dedup();
+    assert!(d.len() == n, "C01: the engine offers a move twice: {ctx}: {e:?}");
+    assert!(e == x, "C01: legal moves differ: {ctx}\n  engine only: {:?}\n  rules only:  {:?}",
+        e.iter().filter(|m| !x.contains(m)).collect::<Vec<_>>(), x.iter().filter(|m| !e.contains(m)).collect::<Vec<_>>());
+    for (white, col) in [(true, Color::White), (false, Color::Black)] {
+        assert!(b.is_in_check(col) == refrules::in_check(r, white), "C01: check status of {:?} differs: {ctx}", col);
+    }
+    moves
+}
+const FENS_C01: [&str; 12] = [
+    "8/8/8/8/8/8/1k6/R3K3 b Q - 0 1", "r3k2r/8/8/8/8/8/6K1/8 w kq - 0 1", "4k3/8/8/2pP4/8/K7/2P4p/8 w - c6 0 2",
+    "8/8/8/8/k2Pp2Q/8/8/3K4 b - d3 0 1", "8/8/3p4/KPp4r/1R3p1k/8/4P1P1/8 w - c6 0 2", "4k3/8/8/8/8/5q2/3N4/3K4 w - - 0 1",
+    "4k3/8/8/6p1/7K/8/P7/8 w - - 0 1", "4k3/8/8/K6p/8/8/8/8 w - - 0 1", "r3k2r/p6p/8/B7/1pp1p3/3b4/P6P/R3K2R w KQkq - 0 1",
+    "n1n5/PPPk4/8/8/8/8/4Kppp/5N1N b - - 0 1", "rnbqkbnr/pppppppp/8/8/4P3/8/PPPP1PPP/RNBQKBNR b KQkq e3 0 1", "r3k3/8/8/8/8/8/7r/3K4 b q - 2 2",
+];
+fn c01_c03_walk(check_c01: bool, check_c03: bool) {
+    let mut rng = Rng(seed());
+    let fens: Vec<&str> = FENS.iter().chain(FENS_C01.iter()).copied().collect();
+    for fen in fens.iter() {
+        // full width to depth 2 from the start position of the walk
+        let mut b = Board::from_fen(fen);
+        let r0 = refrules::from_fen(fen);
+        let m0 = if check_c01 { c01_compare(&mut b, &r0, &format!("fen {fen}")) } else { b.get_legal_moves() };
+        for m in &m0 {
+            let rm = refrules::legal(&r0).into_iter().find(|x| x.text() == m.to_notation());
+            let Some(rm) = rm else { continue };
+            let r1 = refrules::play(&r0, rm);
+            b.make_move(*m);
+            let ctx = format!("fen {fen} moves [{m}]");
+            if check_c03 { c03_compare(&b, &r1, &ctx); }
+            if check_c01 { c01_compare(&mut b, &r1, &ctx); }
+            b.unmake_move();
+        }
+        // seeded random playouts
+        for _game in 0..8 {
+            let mut b = Board::from_fen(fen);
+            let mut r = refrules::from_fen(fen);
+            let mut line: Vec<String> = vec![];
+            let mut earlier: Vec<ZKey> = vec![];
+            for _ply in 0..160 {
+                let ctx = format!("fen {fen} moves {line:?}");
+                if check_c03 {
+                    c03_compare(&b, &r, &ctx);
+                    // the record of earlier positions: exactly one key per ply played, in order
+                    assert!(b.position_history.iter().copied().collect::<Vec<ZKey>>() == earlier,
+                        "C03: the record of earlier positions is not the list of the positions of the game so far ({} entries, {} plies): {ctx}", b.position_history.len(), earlier.len());
+                }
+                let moves = if check_c01 { c01_compare(&mut b, &r, &ctx) } else { b.get_legal_moves() };
+                if moves.is_empty() || r.half >= 100 { break; }
+                let m = moves[rng.below(moves.len())];
+                let Some(rm) = refrules::legal(&r).into_iter().find(|x| x.text() == m.to_notation()) else { break };
+                earlier.push(b.zkey);
+                b.make_move(m);
+                r = refrules::play(&r, rm);
+                line.push(m.to_string());
+            }
+        }
+    }
+}
+#[test]
+fn c01_legal_moves_match_the_rules() { c01_c03_walk(true, false) }
+#[test]
+fn c03_bookkeeping_matches_the_rules() { c01_c03_walk(false, true) }
+
+/// C07: every position of seeded playouts, written out as a FEN by the reference implementation and loaded again by the
+/// engine, is the position the string describes (all components), carries the key of that position, and equals -- for
+/// everything the key covers -- the board that reached the same position by play
+#[test]
+fn c07_fen_loading_matches_the_string() {
+    let mut rng = Rng(seed());
+    let fens: Vec<&str> = FENS.iter().chain(FENS_C01.iter()).copied().collect();
+    for fen in fens.iter() {
+        for _game in 0..4 {
+            let mut b = Board::from_fen(fen);
+            let mut r = refrules::from_fen(fen);
+            for _ply in 0..80 {
+                let text = refrules::to_fen(&r);
+                let loaded = Board::from_fen(&text);
+                c03_compare(&loaded, &r, &format!("C07: FEN {text}"));
+                assert!(loaded.zkey == ZKey::from(&loaded), "C07: key of the loaded board is not the key of its position: FEN {text}");
+                assert!(loaded.zkey == b.zkey, "C07: loaded position and the same position reached by play have different keys: FEN {text}");
+                assert!(loaded.history.len() == 1 && loaded.position_history.is_empty(), "C07: a loaded position must start with an empty game record: FEN {text}");
+                let moves = b.get_legal_moves();
+                if moves.is_empty() || r.half >= 100 { break; }
+                let m = moves[rng.below(moves.len())];
+                let Some(rm) = refrules::legal(&r).into_iter().find(|x| x.text() == m.to_notation()) else { break };
+                b.make_move(m);
+                r = refrules::play(&r, rm);
+            }
+        }
+    }
+}
